@@ -160,6 +160,13 @@ example : Abs ⟨1, 3, 4⟩ ([0x80, 0, 0, 0xFF] : List Byte) [0xFF, 0x80] := by
   | 0, _ => rfl
   | 1, _ => rfl
 
+/-- `ring_for_each(n, r)` visits exactly the occupied slots `(tail + i) mod size`,
+`i < avail`, oldest first, and terminates within `size` iterations -/
+theorem ring_for_each_visits (r : RingHead) (h : r.WF) :
+    (ringForEach r r.size.toNat r.tail).map BitVec.toNat =
+      (List.range r.cnt).map (fun i => (r.tail.toNat + i) % r.size.toNat) :=
+  forEach_spec r h.1 r.size.toNat r.tail h.2 (Nat.le_of_lt (cntN_lt h.1 h.2))
+
 /-! ## 4. FIFO over arbitrary histories -/
 
 /- FULL STATEMENT: "for every size ≥ 1 and every contract-respecting history the
@@ -258,6 +265,22 @@ theorem ring_resize_orig_witness :
       (t.push 2).bind fun t => t.pop.bind fun t => t.push 3).isSome = true := by
   decide
 
+/-- index invariant of the typed ring: push/emplace and pop from ANY state with
+`head, tail < size ≤ |buffer|` (full or not, empty or not) stay inside the buffer
+and keep `head, tail < size`; every index produced by fixup_index — hence used by
+last() and get_last() with any offset/count — lies in `[0, size)`. -/
+theorem ring_typed_inv {α : Type} (t : TRing α) (x : α) (i : BitVec 32) (h : t.r.WF)
+    (hb : t.r.size.toNat ≤ t.buf.length) (hS : t.r.size.toNat < 2 ^ 31) :
+    (∃ t', t.push x = some t' ∧ t'.r.WF ∧ t'.r.size = t.r.size ∧ t'.buf.length = t.buf.length) ∧
+    (∃ t', t.pop = some t' ∧ t'.r.WF ∧ t'.r.size = t.r.size ∧ t'.buf.length = t.buf.length) ∧
+    (0 ≤ (t.fixupIndex i).toInt ∧ (t.fixupIndex i).toInt < t.r.size.toNat) := by
+  have h1 : t.r.head.toNat < t.buf.length := by have := h.1; omega
+  have h2 : t.r.tail.toNat < t.buf.length := by have := h.2; omega
+  refine ⟨⟨⟨ringMoveHeadOne t.r, t.buf.set t.r.head.toNat x⟩, by simp [TRing.push, poke, h1],
+      wf_moveHeadOne h, rfl, by simp⟩,
+    ⟨⟨ringMoveTailOne t.r, t.buf⟩, by simp [TRing.pop, h2], wf_moveTailOne h, rfl, rfl⟩, ?_⟩
+  exact (fixup_index_correct t.r (by have := h.1; omega) hS i).2
+
 /-- push appends (when not full), pop removes the oldest, tail() is the oldest -/
 theorem ring_push_pop_tail {α : Type} (t : TRing α) (q : List α) (x y : α) :
     (Abs t.r t.buf q → q.length < t.r.size.toNat - 1 →
@@ -265,6 +288,11 @@ theorem ring_push_pop_tail {α : Type} (t : TRing α) (q : List α) (x y : α) :
     (Abs t.r t.buf (y :: q) →
       t.tail = some y ∧ ∃ t', t.pop = some t' ∧ t'.r.size = t.r.size ∧ Abs t'.r t'.buf q) :=
   ⟨fun h hr => TRing.push_abs x h hr, fun h => ⟨TRing.tail_abs h, TRing.pop_abs h⟩⟩
+
+/-- clear() (`while (!empty()) pop();`) terminates within `|q|` pops and leaves an empty ring -/
+theorem ring_clear_empties {α : Type} (t : TRing α) (q : List α) (h : Abs t.r t.buf q) :
+    ∃ t', TRing.clear (t.r.size.toNat + 1) t = some t' ∧ t'.r.size = t.r.size ∧ Abs t'.r t'.buf [] :=
+  TRing.clear_abs _ h (by have := abs_len_le h; omega)
 
 /-- last() addresses slot `(head − 1) mod size` for EVERY head position
 (including head = 0) and every size `< 2^31`, power of two or not … -/
